@@ -211,7 +211,7 @@ class HexConstant(_Constant):
         if not from_parse_tree and re.match('^([a-fA-F0-9]{2})+$', value):
             self.value = value
         else:
-            m = re.match("^h'(([a-fA-F0-9]{2})+)'$", value)
+            m = re.match("^h'(([a-fA-F0-9]{2})*)'$", value)
             if m:
                 self.value = m.group(1)
             else:
